@@ -34,6 +34,17 @@ def int_weight(draw, hi=12):
 
 @st.composite
 def rat_weight(draw):
+    if draw(st.integers(0, 7)) == 0:
+        # exact rationals are not limited to small denominators: a Fraction weight is stored as given
+        # (only ints and floats go through limit_denominator), so denominators beyond 10**6 are in
+        # the domain too (standardised profiles, transfer values)
+        q = draw(st.sampled_from([1000003, 3000017, 7000003, 2**31 - 1, 10**12 + 39]))
+        return enc(Fraction(draw(st.integers(1, 12 * q)), q))
+    if draw(st.integers(0, 15)) == 0:
+        # ... nor to small magnitudes: whole and half-integral weights beyond 2**53, where a float
+        # detour would round
+        big = 2**53 + draw(st.integers(1, 99)) if draw(st.booleans()) else 10 ** draw(st.integers(7, 18)) + draw(st.integers(1, 9))
+        return enc(Fraction(big * 2 + draw(st.integers(0, 1)), 2))
     q = draw(st.integers(1, 6))
     p = draw(st.integers(1, 12 * q))
     return enc(Fraction(p, q))
